@@ -266,10 +266,918 @@ theorem Pres.updClsBases {vs : List Id} {i : Id} (hi : i ∉ vs) (b) : Pres vs (
 theorem Pres.updInstSlots {vs : List Id} {i : Id} (hi : i ∉ vs) (f) : Pres vs (updInstSlots i f) :=
   fun _ _ _ h => updInstSlots_frame (Or.inl hi) h
 
-/-- one step of structural decomposition of a `Pres` goal -/
-macro "pres_step" : tactic => `(tactic| first
+/-- one step of structural decomposition of a `Pres` goal (reducible transparency: never unfold a handler) -/
+macro "pres_step" : tactic => `(tactic| with_reducible first
   | exact Pres.pure' _ | exact Pres.pure _ | exact Pres.fail _ | exact Pres.getObj _ | exact Pres.getSt
   | exact Pres.cacheGet _ | exact Pres.cachePut _ _ | exact Pres.updCell _ _
   | apply Pres.bind' | apply Pres.bind | intro _ | split)
+
+
+/-! ### attribute access -/
+
+theorem Pres.allocBound {vs : List Id} (raw owner : Id) : Pres vs (allocBound raw owner) := by
+  intro s a s' h
+  unfold C16.allocBound at h
+  split at h
+  · rename_i f hc
+    cases h
+    exact Frame.push_meth hc
+  · cases h
+
+theorem Pres.getattrOf {vs : List Id} (owner : Id) (name : Str) : Pres vs (getattrOf owner name) := by
+  unfold C16.getattrOf
+  repeat' pres_step
+  exact Pres.allocBound _ _
+
+theorem Pres.setattrOf {vs : List Id} {owner : Id} (hi : owner ∉ vs) (name : Str) (v : Id) :
+    Pres vs (setattrOf owner name v) := by
+  unfold C16.setattrOf
+  repeat' pres_step
+  · exact Pres.updClsAttrs hi _
+  · exact Pres.updInstSlots hi _
+
+theorem Pres.delattrOf {vs : List Id} {owner : Id} (hi : owner ∉ vs) (name : Str) :
+    Pres vs (delattrOf owner name) := by
+  unfold C16.delattrOf
+  repeat' pres_step
+  · exact Pres.updClsAttrs hi _
+  · exact Pres.updInstSlots hi _
+
+/-! ### conditional preservation: the state satisfies `P` when the computation starts -/
+
+def PresIf (vs : List Id) (P : St → Prop) (m : M α) : Prop :=
+  ∀ s a s', P s → m s = .ok (a, s') → Frame vs s.heap s'.heap
+
+theorem PresIf.of_pres {vs : List Id} {P : St → Prop} {m : M α} (h : Pres vs m) : PresIf vs P m :=
+  fun s a s' _ e => h s a s' e
+
+theorem PresIf.to_pres {vs : List Id} {P : St → Prop} {m : M α} (hP : ∀ s, P s) (h : PresIf vs P m) : Pres vs m :=
+  fun s a s' e => h s a s' (hP s) e
+
+theorem PresIf.weaken {vs : List Id} {P Q : St → Prop} {m : M α} (hPQ : ∀ s, P s → Q s) (h : PresIf vs Q m) :
+    PresIf vs P m :=
+  fun s a s' p e => h s a s' (hPQ s p) e
+
+theorem getObj_ok {i : Id} {s s' : St} {o : Obj} (h : getObj i s = .ok (o, s')) : s' = s ∧ s.heap[i]? = some o := by
+  unfold C16.getObj at h; split at h
+  · rename_i o' ho'; cases h; exact ⟨rfl, ho'⟩
+  · cases h
+
+theorem getSt_ok {s s' t : St} (h : getSt s = .ok (t, s')) : s' = s ∧ t = s := by
+  unfold C16.getSt at h; cases h; exact ⟨rfl, rfl⟩
+
+theorem PresIf.bind_getObj {vs : List Id} {P : St → Prop} {i : Id} {f : Obj → M β}
+    (hf : ∀ o, PresIf vs (fun s => P s ∧ s.heap[i]? = some o) (f o)) : PresIf vs P (getObj i >>= f) := by
+  intro s b s'' p h
+  obtain ⟨o, s1, h1, h2⟩ := bind_ok.mp h
+  obtain ⟨rfl, ho⟩ := getObj_ok h1
+  exact hf o s1 b s'' ⟨p, ho⟩ h2
+
+theorem PresIf.bind_getSt {vs : List Id} {P : St → Prop} {f : St → M β}
+    (hf : ∀ t, PresIf vs (fun s => P s ∧ t = s) (f t)) : PresIf vs P (getSt >>= f) := by
+  intro s b s'' p h
+  obtain ⟨t, s1, h1, h2⟩ := bind_ok.mp h
+  obtain ⟨rfl, rfl⟩ := getSt_ok h1
+  exact hf _ _ b s'' ⟨p, rfl⟩ h2
+
+theorem PresIf.bind_first {vs : List Id} {P : St → Prop} {m : M α} {f : α → M β} (hm : PresIf vs P m)
+    (hf : ∀ a, Pres vs (f a)) : PresIf vs P (m >>= f) := by
+  intro s b s'' p h
+  obtain ⟨a, s1, h1, h2⟩ := bind_ok.mp h
+  exact (hm s a s1 p h1).trans (hf a s1 b s'' h2)
+
+/-! ### the handlers -/
+
+/-- the recursive call keeps the frame of whatever stack it is given -/
+def RecOK (rec : Rec) : Prop := ∀ vs old new, Pres vs (rec vs old new)
+
+section handlers
+variable {cx : Ctx} {rec : Rec} {vs0 vs : List Id} {old : Id}
+
+macro "pres_close" hrec:ident sub:ident hi:ident : tactic => `(tactic| first
+  | exact Pres.mono $sub ($hrec _ _ _)
+  | exact Pres.setattrOf $hi _ _ | exact Pres.delattrOf $hi _ | exact Pres.getattrOf _ _
+  | exact Pres.updDict $hi _ | exact Pres.updClsBases $hi _ | exact Pres.updClsAttrs $hi _
+  | exact Pres.updInstSlots $hi _)
+
+theorem Pres.lpSetattr (hrec : RecOK rec) (sub : ∀ i, i ∈ vs0 → i ∈ vs) (hi : old ∉ vs0) (new : Id) (name : Str) :
+    Pres vs0 (lpSetattr rec vs old new name) := by
+  unfold C16.lpSetattr
+  repeat' pres_step
+  all_goals pres_close hrec sub hi
+
+theorem Pres.lpDictStep (hrec : RecOK rec) (sub : ∀ i, i ∈ vs0 → i ∈ vs) (hi : old ∉ vs0) (new : Id) (name : Str) :
+    Pres vs0 (lpDictStep rec vs old new name) := by
+  unfold C16.lpDictStep
+  repeat' pres_step
+  all_goals pres_close hrec sub hi
+
+theorem Pres.lpDict (hrec : RecOK rec) (sub : ∀ i, i ∈ vs0 → i ∈ vs) (hi : old ∉ vs0) (new : Id) :
+    Pres vs0 (lpDict rec vs old new) := by
+  unfold C16.lpDict
+  repeat' (first | pres_step | apply Pres.forEach)
+  all_goals first | pres_close hrec sub hi | exact Pres.lpDictStep hrec sub hi _ _
+
+theorem Pres.lpCells (hrec : RecOK rec) (sub : ∀ i, i ∈ vs0 → i ∈ vs) :
+    ∀ as bs, Pres vs0 (lpCells cx rec vs as bs) := by
+  intro as
+  induction as with
+  | nil => intro bs; unfold C16.lpCells; exact Pres.pure' ()
+  | cons a as ih =>
+    intro bs
+    cases bs with
+    | nil => unfold C16.lpCells; exact Pres.pure' ()
+    | cons b bs =>
+      unfold C16.lpCells
+      repeat' pres_step
+      all_goals first | exact Pres.mono sub (hrec _ _ _) | exact ih _
+
+theorem lpFunctionBody_presIf (hrec : RecOK rec) (sub : ∀ i, i ∈ vs0 → i ∈ vs) (c d dc od nd : Nat) (oc nc : List Id) :
+    PresIf vs0 (fun s => ∀ o, s.heap[old]? = some o → o.kind = .func → Wr vs0 s.heap old)
+      (lpFunctionBody cx rec vs old c d dc od nd oc nc) := by
+  intro s a s' p h
+  unfold lpFunctionBody at h
+  simp only [bind_eq] at h
+  obtain ⟨u, s1, h1, h2⟩ := bind_ok.mp h
+  have w : Wr vs0 s.heap old := by
+    unfold updFunc at h1
+    split at h1
+    · rename_i he; exact p _ he rfl
+    · cases h1
+  refine (updFunc_frame w h1).trans ?_
+  have rest : Pres vs0 (M.bind (rec vs od nd) fun _ => M.bind (lpCells cx rec vs oc nc) fun _ => M.pure old) := by
+    repeat' pres_step
+    · exact Pres.mono sub (hrec _ _ _)
+    · exact Pres.lpCells hrec sub _ _
+  exact rest s1 a s' h2
+
+theorem lpFunction_presIf (hrec : RecOK rec) (sub : ∀ i, i ∈ vs0 → i ∈ vs) (new : Id) :
+    PresIf vs0 (fun s => ∀ o, s.heap[old]? = some o → o.kind = .func → Wr vs0 s.heap old)
+      (lpFunction cx rec vs old new) := by
+  unfold C16.lpFunction
+  apply PresIf.bind_getObj; intro o
+  apply PresIf.bind_getObj; intro n
+  split
+  · apply PresIf.bind_getSt; intro t
+    split
+    · exact PresIf.of_pres (Pres.pure' _)
+    · exact PresIf.weaken (fun s p => p.1.1.1) (lpFunctionBody_presIf hrec sub _ _ _ _ _ _ _)
+  · exact PresIf.of_pres (Pres.fail _)
+
+theorem Pres.lpFunction (hrec : RecOK rec) (sub : ∀ i, i ∈ vs0 → i ∈ vs) (hi : old ∉ vs0) (new : Id) :
+    Pres vs0 (lpFunction cx rec vs old new) :=
+  PresIf.to_pres (fun _ _ _ _ => Or.inl hi) (lpFunction_presIf hrec sub new)
+
+/-- `_livepatch__method` may write a function that is on the visit stack — but only an unprotected one -/
+theorem Pres.lpMethod (hrec : RecOK rec) (sub : ∀ i, i ∈ vs0 → i ∈ vs) (old new : Id) :
+    Pres vs0 (lpMethod cx rec vs old new) := by
+  apply PresIf.to_pres (P := fun _ => True) (fun _ => trivial)
+  unfold C16.lpMethod
+  apply PresIf.bind_getObj; intro o
+  apply PresIf.bind_getObj; intro n
+  split
+  · rename_i fo so fn sn
+    apply PresIf.bind_first
+    · apply PresIf.weaken _ (lpFunction_presIf hrec sub fn)
+      intro s p of hof _
+      refine Or.inr ?_
+      rintro ⟨o', ho', _, hnm⟩
+      rw [hof] at ho'; cases ho'
+      have := hnm (by assumption)
+      exact (this old _ p.1.2).1 so rfl
+    · intro _; exact Pres.pure' _
+  · exact PresIf.of_pres (Pres.fail _)
+
+end handlers
+
+section handlers2
+variable {cx : Ctx} {rec : Rec} {vs0 vs : List Id} {old : Id}
+
+theorem Pres.lpBases (hrec : RecOK rec) (sub : ∀ i, i ∈ vs0 → i ∈ vs) (obs : List Id) :
+    ∀ nbs, Pres vs0 (lpBases rec vs obs nbs) := by
+  intro nbs
+  induction nbs with
+  | nil => unfold C16.lpBases; exact Pres.pure' _
+  | cons nb rest ih =>
+    unfold C16.lpBases
+    repeat' pres_step
+    all_goals first | exact Pres.mono sub (hrec _ _ _) | exact ih
+
+theorem Pres.classBases (hrec : RecOK rec) (sub : ∀ i, i ∈ vs0 → i ∈ vs) (obs nbs : List Id) :
+    Pres vs0 (classBases cx rec vs obs nbs) := by
+  unfold C16.classBases
+  split
+  · exact Pres.lpBases hrec sub _ _
+  · exact Pres.pure' _
+
+theorem Pres.lpClass (hrec : RecOK rec) (sub : ∀ i, i ∈ vs0 → i ∈ vs) (hi : old ∉ vs0) (new : Id) :
+    Pres vs0 (lpClass cx rec vs old new) := by
+  unfold C16.lpClass
+  repeat' (first | pres_step | apply Pres.forEach)
+  all_goals first | pres_close hrec sub hi | exact Pres.lpSetattr hrec sub hi _ _ | exact Pres.classBases hrec sub _ _
+
+theorem Pres.lpSlotStep (hrec : RecOK rec) (sub : ∀ i, i ∈ vs0 → i ∈ vs) (hi : old ∉ vs0) (new : Id) (name : Str) :
+    Pres vs0 (lpSlotStep cx rec vs old new name) := by
+  unfold C16.lpSlotStep
+  repeat' pres_step
+  all_goals first | pres_close hrec sub hi | exact Pres.lpSetattr hrec sub hi _ _
+
+theorem Pres.lpObject (hrec : RecOK rec) (sub : ∀ i, i ∈ vs0 → i ∈ vs) (hi : old ∉ vs0) (new : Id) :
+    Pres vs0 (lpObject cx rec vs old new) := by
+  unfold C16.lpObject
+  repeat' (first | pres_step | apply Pres.forEach)
+  all_goals first | pres_close hrec sub hi | exact Pres.lpSlotStep hrec sub hi _ _
+
+theorem Pres.lpModule (hrec : RecOK rec) (sub : ∀ i, i ∈ vs0 → i ∈ vs) (old new : Id) :
+    Pres vs0 (lpModule rec vs old new) := by
+  unfold C16.lpModule
+  repeat' pres_step
+  all_goals exact Pres.mono sub (hrec _ _ _)
+
+theorem Pres.resolveKind (hrec : RecOK rec) (sub : ∀ i, i ∈ vs0 → i ∈ vs) (old new : Id) (am : Bool) :
+    Pres vs0 (resolveKind cx rec vs old new am) := by
+  unfold C16.resolveKind
+  repeat' pres_step
+  all_goals exact Pres.mono sub (hrec _ _ _)
+
+theorem Pres.dispatch (hrec : RecOK rec) (sub : ∀ i, i ∈ vs0 → i ∈ vs) (hi : old ∉ vs0) (new : Id) (am : Bool) :
+    Pres vs0 (dispatch cx rec vs old new am) := by
+  unfold C16.dispatch
+  apply Pres.bind' (Pres.resolveKind hrec sub _ _ _)
+  intro k
+  split
+  · exact Pres.pure' _
+  · exact Pres.lpDict hrec sub hi _
+  · exact Pres.lpFunction hrec sub hi _
+  · exact Pres.lpMethod hrec sub _ _
+  · exact Pres.lpClass hrec sub hi _
+  · exact Pres.lpModule hrec sub _ _
+  · exact Pres.lpObject hrec sub hi _
+
+end handlers2
+
+/-- **The frame theorem.**  `livepatch(old, new, visit_stack=vs)` — whatever the heap, the fuel, the repairs — only
+    grows the heap, never changes the kind of an object, and leaves every protected object on `vs` untouched. -/
+theorem lp_frame (cx : Ctx) : ∀ (fuel : Nat) (am : Bool) (vs : List Id) (old new : Id), Pres vs (lp cx fuel am vs old new) := by
+  intro fuel
+  induction fuel with
+  | zero => intro am vs old new; unfold lp; exact Pres.fail _
+  | succ n ih =>
+    intro am vs old new
+    unfold lp
+    split
+    · exact Pres.pure' _
+    · split
+      · exact Pres.pure' _
+      · rename_i hc
+        have hi : old ∉ vs := by simpa using hc
+        have hrec : RecOK (lp cx n false) := fun vs o nw => ih false vs o nw
+        repeat' pres_step
+        exact Pres.dispatch hrec (fun i h => List.mem_append_left _ h) hi _ _
+
+
+
+/-! ### association lists -/
+
+theorem alookup_aset (k k' : Str) (v : Id) (l : List (Str × Id)) :
+    alookup k (aset k' v l) = if k' = k then some v else alookup k l := by
+  induction l with
+  | nil => simp [aset, alookup]
+  | cons p r ih =>
+    obtain ⟨a, b⟩ := p
+    unfold aset
+    by_cases h1 : a = k'
+    · subst h1
+      simp only [if_true]
+      by_cases h2 : a = k
+      · simp [alookup, h2]
+      · simp [alookup, h2]
+    · simp only [h1, if_false]
+      by_cases h2 : a = k
+      · subst h2
+        simp [alookup, Ne.symm h1]
+      · simp [alookup, h2, ih]
+
+theorem alookup_adel (k k' : Str) (l : List (Str × Id)) :
+    alookup k (adel k' l) = if k' = k then none else alookup k l := by
+  induction l with
+  | nil => simp [adel, alookup]
+  | cons p r ih =>
+    obtain ⟨a, b⟩ := p
+    unfold adel at ih ⊢
+    by_cases h1 : a = k'
+    · subst h1
+      simp only [List.filter, ne_eq, not_true_eq_false, decide_false]
+      rw [ih]
+      by_cases h2 : a = k
+      · simp [h2]
+      · simp [alookup, h2]
+    · simp only [List.filter, ne_eq, h1, not_false_eq_true, decide_true]
+      by_cases h2 : a = k
+      · subst h2
+        simp [alookup, Ne.symm h1]
+      · simp only [alookup, h2, if_false]
+        simpa using ih
+
+theorem hasKey_aset (k k' : Str) (v : Id) (l : List (Str × Id)) :
+    hasKey k (aset k' v l) = (decide (k' = k) || hasKey k l) := by
+  unfold hasKey; rw [alookup_aset]; by_cases h : k' = k <;> simp [h]
+
+theorem hasKey_adel (k k' : Str) (l : List (Str × Id)) :
+    hasKey k (adel k' l) = (!decide (k' = k) && hasKey k l) := by
+  unfold hasKey; rw [alookup_adel]; by_cases h : k' = k <;> simp [h]
+
+theorem mem_akeys (k : Str) (l : List (Str × Id)) : k ∈ akeys l ↔ hasKey k l = true := by
+  induction l with
+  | nil => simp [akeys, hasKey, alookup]
+  | cons p r ih =>
+    obtain ⟨a, b⟩ := p
+    unfold akeys at ih ⊢
+    unfold hasKey at ih ⊢
+    by_cases h : a = k
+    · simp [alookup, h]
+    · simp [alookup, h, ih, Ne.symm h]
+
+/-- key set after the two set-difference loops of `_livepatch__dict` / `_livepatch__class` -/
+def addKeys (eo en : List (Str × Id)) : List (Str × Id) :=
+  ((akeys en).filter (fun k => !hasKey k eo)).foldl (fun e k => aset k ((alookup k en).getD 0) e) eo
+
+def delKeys (eo en : List (Str × Id)) (e : List (Str × Id)) : List (Str × Id) :=
+  ((akeys eo).filter (fun k => !hasKey k en)).foldl (fun e k => adel k e) e
+
+theorem hasKey_foldl_aset (k : Str) (g : Str → Id) (ks : List Str) (e : List (Str × Id)) :
+    hasKey k (ks.foldl (fun e k => aset k (g k) e) e) = (decide (k ∈ ks) || hasKey k e) := by
+  induction ks generalizing e with
+  | nil => simp
+  | cons a r ih =>
+    simp only [List.foldl_cons]
+    rw [ih, hasKey_aset]
+    by_cases h : a = k
+    · simp [h]
+    · simp [h, Ne.symm h]
+
+theorem hasKey_foldl_adel (k : Str) (ks : List Str) (e : List (Str × Id)) :
+    hasKey k (ks.foldl (fun e k => adel k e) e) = (!decide (k ∈ ks) && hasKey k e) := by
+  induction ks generalizing e with
+  | nil => simp
+  | cons a r ih =>
+    simp only [List.foldl_cons]
+    rw [ih, hasKey_adel]
+    by_cases h : a = k
+    · simp [h]
+    · simp [h, Ne.symm h]
+
+theorem hasKey_sync (k : Str) (eo en : List (Str × Id)) :
+    hasKey k (delKeys eo en (addKeys eo en)) = hasKey k en := by
+  unfold delKeys addKeys
+  rw [hasKey_foldl_adel, hasKey_foldl_aset]
+  have h1 : decide (k ∈ (akeys en).filter (fun k => !hasKey k eo)) = (hasKey k en && !hasKey k eo) := by
+    by_cases a : hasKey k en = true <;> by_cases b : hasKey k eo = true <;>
+      simp [List.mem_filter, mem_akeys, a, b]
+  have h2 : decide (k ∈ (akeys eo).filter (fun k => !hasKey k en)) = (hasKey k eo && !hasKey k en) := by
+    by_cases a : hasKey k en = true <;> by_cases b : hasKey k eo = true <;>
+      simp [List.mem_filter, mem_akeys, a, b]
+  rw [h1, h2]
+  cases hasKey k en <;> cases hasKey k eo <;> rfl
+
+
+/-! ### `_livepatch__dict`: afterwards the old dict has exactly the new dict's keys -/
+
+theorem updDict_ok {i : Id} {f} {s s' : St} {a : Unit} (h : updDict i f s = .ok (a, s')) :
+    ∃ e, s.heap[i]? = some (.dict e) ∧ s' = { s with heap := s.heap.set i (.dict (f e)) } := by
+  unfold updDict at h
+  split at h
+  · rename_i e he; cases h; exact ⟨e, he, rfl⟩
+  · cases h
+
+theorem getElem?_set_self' {h : List Obj} {i : Id} {o o' : Obj} (ho : h[i]? = some o) : (h.set i o')[i]? = some o' := by
+  have hlt : i < h.length := by
+    rcases Nat.lt_or_ge i h.length with hl | hl
+    · exact hl
+    · rw [List.getElem?_eq_none hl] at ho; cases ho
+  simp [hlt]
+
+theorem forEach_updDict (old : Id) (g : Str → List (Str × Id) → List (Str × Id)) :
+    ∀ (ks : List Str) (s : St) (e : List (Str × Id)), s.heap[old]? = some (.dict e) →
+      ∀ s', forEach (fun k => updDict old (g k)) ks s = .ok ((), s') →
+        s'.heap[old]? = some (.dict (ks.foldl (fun e k => g k e) e)) ∧ (∀ j, j ≠ old → s'.heap[j]? = s.heap[j]?) := by
+  intro ks
+  induction ks with
+  | nil =>
+    intro s e he s' h
+    unfold forEach at h
+    obtain ⟨_, rfl⟩ := pure_ok.mp h
+    exact ⟨he, fun _ _ => rfl⟩
+  | cons k ks ih =>
+    intro s e he s' h
+    unfold forEach at h
+    simp only [bind_eq] at h
+    obtain ⟨u, s1, h1, h2⟩ := bind_ok.mp h
+    obtain ⟨e', he', rfl⟩ := updDict_ok h1
+    rw [he] at he'; cases he'
+    have := ih _ (g k e) (by simpa using getElem?_set_self' he) s' h2
+    refine ⟨this.1, fun j hj => ?_⟩
+    rw [this.2 j hj]
+    simp [List.getElem?_set_ne (Ne.symm hj)]
+
+theorem forEach_inv {I : St → Prop} {f : α → M Unit} (hf : ∀ x s s', I s → f x s = .ok ((), s') → I s') :
+    ∀ (xs : List α) (s s' : St), I s → forEach f xs s = .ok ((), s') → I s' := by
+  intro xs
+  induction xs with
+  | nil =>
+    intro s s' hi h
+    unfold forEach at h
+    obtain ⟨_, rfl⟩ := pure_ok.mp h
+    exact hi
+  | cons x xs ih =>
+    intro s s' hi h
+    unfold forEach at h
+    simp only [bind_eq] at h
+    obtain ⟨u, s1, h1, h2⟩ := bind_ok.mp h
+    exact ih s1 s' (hf x s s1 hi h1) h2
+
+/-- `old` is a dict with the key set of `en` -/
+def DictKeys (old : Id) (en : List (Str × Id)) (s : St) : Prop :=
+  ∃ e, s.heap[old]? = some (.dict e) ∧ ∀ k, hasKey k e = hasKey k en
+
+theorem prot_dict {h : List Obj} {i : Id} {e} (he : h[i]? = some (.dict e)) : Prot h i :=
+  ⟨_, he, by simp [Obj.kind], by simp [Obj.kind]⟩
+
+theorem lpDictStep_keys {rec : Rec} {vs : List Id} {old new : Id} (hrec : RecOK rec) (hin : old ∈ vs)
+    (en : List (Str × Id)) (name : Str) (s s' : St) (hk : DictKeys old en s)
+    (h : lpDictStep rec vs old new name s = .ok ((), s')) : DictKeys old en s' := by
+  obtain ⟨e, he, hke⟩ := hk
+  unfold lpDictStep at h
+  simp only [bind_eq, pure_eq] at h
+  obtain ⟨o, s1, h1, h2⟩ := bind_ok.mp h
+  obtain ⟨rfl, ho⟩ := getObj_ok h1
+  rw [he] at ho; cases ho
+  obtain ⟨n, s2, h3, h4⟩ := bind_ok.mp h2
+  obtain ⟨rfl, hn⟩ := getObj_ok h3
+  cases n with
+  | dict en' =>
+    simp only at h4
+    cases hov : alookup name e with
+    | none => simp only [hov] at h4; exact (fail_ok.mp h4).elim
+    | some ov =>
+      cases hnv : alookup name en' with
+      | none => simp only [hov, hnv] at h4; exact (fail_ok.mp h4).elim
+      | some nv =>
+        simp only [hov, hnv] at h4
+        obtain ⟨r, s3, h5, h6⟩ := bind_ok.mp h4
+        have F := hrec vs ov nv _ _ _ h5
+        have keep : s3.heap[old]? = some (.dict e) := by rw [F.keep old hin (prot_dict he)]; exact he
+        split at h6
+        · obtain ⟨_, rfl⟩ := pure_ok.mp h6
+          exact ⟨e, keep, hke⟩
+        · obtain ⟨e', he', rfl⟩ := updDict_ok h6
+          rw [keep] at he'; cases he'
+          refine ⟨aset name r e, by simpa using getElem?_set_self' keep, fun k => ?_⟩
+          rw [hasKey_aset, ← hke k]
+          by_cases hnk : name = k
+          · subst hnk; simp [hasKey, hov]
+          · simp [hnk]
+  | _ => exact (fail_ok.mp h4).elim
+
+/-- **Names.**  Whatever the heap and whatever the nested calls do: when `_livepatch__dict(old, new)` returns (it runs
+    with `old` on the visit stack, as `livepatch` calls it), it returns `old`, and `old` is a dict whose key set is the
+    key set `new` had on entry — deleted names are gone, new names are there. -/
+theorem lpDict_keys {rec : Rec} {vs : List Id} {old new : Id} (hrec : RecOK rec) (hin : old ∈ vs)
+    {s s' : St} {r : Id} {en : List (Str × Id)} (hn : s.heap[new]? = some (.dict en))
+    (h : lpDict rec vs old new s = .ok (r, s')) :
+    r = old ∧ ∃ e', s'.heap[old]? = some (.dict e') ∧ ∀ k, hasKey k e' = hasKey k en := by
+  unfold lpDict at h
+  simp only [bind_eq, pure_eq] at h
+  obtain ⟨o, s1, h1, h2⟩ := bind_ok.mp h
+  obtain ⟨rfl, ho⟩ := getObj_ok h1
+  obtain ⟨n, s2, h3, h4⟩ := bind_ok.mp h2
+  obtain ⟨rfl, hn'⟩ := getObj_ok h3
+  rw [hn] at hn'; cases hn'
+  cases o with
+  | dict eo =>
+    simp only at h4
+    obtain ⟨u1, s3, h5, h6⟩ := bind_ok.mp h4
+    obtain ⟨u2, s4, h7, h8⟩ := bind_ok.mp h6
+    obtain ⟨u3, s5, h9, h10⟩ := bind_ok.mp h8
+    obtain ⟨hr, hs⟩ := pure_ok.mp h10
+    subst hs
+    refine ⟨hr, ?_⟩
+    have p1 := forEach_updDict old (fun k => aset k ((alookup k en).getD 0)) _ s2 eo ho s3 h5
+    have p2 := forEach_updDict old (fun k => adel k) _ s3 _ p1.1 s4 h7
+    have inv4 : DictKeys old en s4 := ⟨_, p2.1, fun k => hasKey_sync k eo en⟩
+    exact forEach_inv (fun x t t' => lpDictStep_keys hrec hin en x t t') _ s4 _ inv4 h9
+  | _ => exact (fail_ok.mp h4).elim
+
+
+
+theorem getObj_eq {i : Id} {s : St} {o : Obj} (h : s.heap[i]? = some o) : getObj i s = .ok (o, s) := by
+  unfold getObj; rw [h]
+
+theorem resolveKind_dict {cx : Ctx} {rec : Rec} {vs : List Id} {D N : Id} {s : St} {ed en : List (Str × Id)}
+    (hD : s.heap[D]? = some (.dict ed)) (hN : s.heap[N]? = some (.dict en)) :
+    resolveKind cx rec vs D N false s = .ok (some .dict, s) := by
+  unfold resolveKind
+  simp [M.bind, getObj_eq hD, getObj_eq hN, getSt, defModule, hN, hD, sameType, Obj.kind, M.pure]
+
+theorem cacheGet_miss {k : Id × Id} {s : St} (h : s.cache.find? (fun e => e.1 = k) = none) :
+    cacheGet k s = .ok (none, s) := by
+  unfold cacheGet; rw [h]; rfl
+
+/-- **C16_names** at the level of `livepatch(old_dict, new_dict)`: for every heap, fuel and set of repairs, if the call
+    is not cut short (not on the visit stack, not cached) and returns, the old dict has exactly the new dict's keys. -/
+theorem lp_dict_keys {cx : Ctx} {fuel : Nat} {vs : List Id} {D N : Id} {s s' : St} {r : Id}
+    {ed en : List (Str × Id)} (hne : D ≠ N) (hvs : D ∉ vs) (hc : s.cache.find? (fun e => e.1 = (D, N)) = none)
+    (hD : s.heap[D]? = some (.dict ed)) (hN : s.heap[N]? = some (.dict en))
+    (h : lp cx fuel false vs D N s = .ok (r, s')) :
+    r = D ∧ ∃ e', s'.heap[D]? = some (.dict e') ∧ ∀ k, hasKey k e' = hasKey k en := by
+  cases fuel with
+  | zero => unfold lp at h; exact (fail_ok.mp h).elim
+  | succ n =>
+    unfold lp at h
+    have hc' : vs.contains D = false := by simpa using hvs
+    simp only [hne, if_false, hc', bind_eq, pure_eq, Bool.false_eq_true] at h
+    obtain ⟨c, s1, h1, h2⟩ := bind_ok.mp h
+    rw [cacheGet_miss hc] at h1
+    cases h1
+    simp only at h2
+    obtain ⟨r1, s2, h3, h4⟩ := bind_ok.mp h2
+    obtain ⟨u, s3, h5, h6⟩ := bind_ok.mp h4
+    obtain ⟨hr, hs⟩ := pure_ok.mp h6
+    subst hs hr
+    unfold cachePut at h5
+    cases h5
+    unfold dispatch at h3
+    simp only [bind_eq, pure_eq] at h3
+    obtain ⟨k, s4, h7, h8⟩ := bind_ok.mp h3
+    rw [resolveKind_dict hD hN] at h7
+    cases h7
+    simp only at h8
+    exact lpDict_keys (s' := s2) (fun vs o nw => lp_frame cx n false vs o nw) (List.mem_append_right _ (List.mem_singleton.mpr rfl)) hN h8
+
+
+theorem resolveKind_module {cx : Ctx} {rec : Rec} {vs : List Id} {Mo Mn D N : Id} {s : St}
+    (hMo : s.heap[Mo]? = some (.module D)) (hMn : s.heap[Mn]? = some (.module N)) :
+    resolveKind cx rec vs Mo Mn true s = .ok (some .module, s) := by
+  unfold resolveKind
+  simp [M.bind, getObj_eq hMo, getObj_eq hMn, getSt, defModule, hMn, M.pure]
+
+theorem prot_module {h : List Obj} {i d : Id} (he : h[i]? = some (.module d)) : Prot h i :=
+  ⟨_, he, by simp [Obj.kind], by simp [Obj.kind]⟩
+
+/-- the top-level call of `_xreload_module`: `livepatch(module, new_mod, name, assume_type=ModuleType)` -/
+theorem lp_module_names {cx : Ctx} {fuel : Nat} {Mo Mn D N : Id} {s s' : St} {r : Id} {ed en : List (Str × Id)}
+    (hM : Mo ≠ Mn) (hne : D ≠ N) (hc : s.cache = [])
+    (hMo : s.heap[Mo]? = some (.module D)) (hMn : s.heap[Mn]? = some (.module N))
+    (hD : s.heap[D]? = some (.dict ed)) (hN : s.heap[N]? = some (.dict en))
+    (h : lp cx fuel true [] Mo Mn s = .ok (r, s')) :
+    r = Mo ∧ s'.heap[Mo]? = some (.module D) ∧
+      ∃ e', s'.heap[D]? = some (.dict e') ∧ ∀ k, hasKey k e' = hasKey k en := by
+  cases fuel with
+  | zero => unfold lp at h; exact (fail_ok.mp h).elim
+  | succ n =>
+    unfold lp at h
+    simp only [hM, if_false, List.contains_nil, bind_eq, pure_eq, Bool.false_eq_true] at h
+    obtain ⟨c, s1, h1, h2⟩ := bind_ok.mp h
+    rw [cacheGet_miss (by rw [hc]; rfl)] at h1
+    cases h1
+    simp only at h2
+    obtain ⟨r1, s2, h3, h4⟩ := bind_ok.mp h2
+    obtain ⟨u, s3, h5, h6⟩ := bind_ok.mp h4
+    obtain ⟨hr, hs⟩ := pure_ok.mp h6
+    subst hs hr
+    unfold cachePut at h5
+    cases h5
+    unfold dispatch at h3
+    simp only [bind_eq, pure_eq] at h3
+    obtain ⟨k, s4, h7, h8⟩ := bind_ok.mp h3
+    rw [resolveKind_module hMo hMn] at h7
+    cases h7
+    simp only at h8
+    unfold lpModule at h8
+    simp only [bind_eq, pure_eq] at h8
+    obtain ⟨o, s5, h9, h10⟩ := bind_ok.mp h8
+    rw [getObj_eq hMo] at h9; cases h9
+    obtain ⟨nn, s6, h11, h12⟩ := bind_ok.mp h10
+    rw [getObj_eq hMn] at h11; cases h11
+    simp only at h12
+    obtain ⟨rd, s7, h13, h14⟩ := bind_ok.mp h12
+    have hDM : D ∉ ([] ++ [Mo] : List Id) := by
+      simp only [List.nil_append, List.mem_singleton]
+      intro e; subst e; rw [hMo] at hD; cases hD
+    have key := lp_dict_keys hne hDM (by rw [hc]; rfl) hD hN h13
+    have Fd := lp_frame cx n false ([] ++ [Mo]) D N _ _ _ h13
+    have keepM : s7.heap[Mo]? = some (.module D) := by
+      rw [Fd.keep Mo (by simp) (prot_module hMo)]; exact hMo
+    rw [key.1] at h14
+    simp only [if_true] at h14
+    obtain ⟨hr, hs⟩ := pure_ok.mp h14
+    subst hs
+    exact ⟨hr, keepM, key.2⟩
+
+
+/-! ### helpers for the property theorems -/
+
+theorem aset_aset_restore (k : Str) (v m : Id) (l : List (Str × Id)) (h : alookup k l = some m) :
+    aset k m (aset k v l) = l := by
+  induction l with
+  | nil => simp [alookup] at h
+  | cons p r ih =>
+    obtain ⟨a, b⟩ := p
+    unfold alookup at h
+    by_cases e : a = k
+    · subst e
+      simp only [if_true] at h
+      cases h
+      simp [aset]
+    · simp only [e, if_false] at h
+      simp [aset, e, ih h]
+
+theorem adel_aset_restore (k : Str) (v : Id) (l : List (Str × Id)) (h : alookup k l = none) :
+    adel k (aset k v l) = l := by
+  induction l with
+  | nil => simp [aset, adel]
+  | cons p r ih =>
+    obtain ⟨a, b⟩ := p
+    unfold alookup at h
+    by_cases e : a = k
+    · simp [e] at h
+    · simp only [e, if_false] at h
+      have := ih h
+      unfold adel at this ⊢
+      simp only [aset, e, if_false, List.filter, ne_eq, not_false_eq_true, decide_true]
+      congr 1
+
+theorem restore_aset (k : Str) (v : Id) (l : List (Str × Id)) : restore k (alookup k l) (aset k v l) = l := by
+  unfold restore
+  cases h : alookup k l with
+  | none => exact adel_aset_restore k v l h
+  | some m => exact aset_aset_restore k v m l h
+
+/-- the new object is defined by the module being reloaded (or its origin is unknown / no module given) -/
+def sameModule (cx : Ctx) (m' : Option Str) : Bool := !(cx.modname.isSome && m'.isSome && m' != cx.modname)
+
+theorem resolveKind_func {cx : Ctx} {rec : Rec} {vs : List Id} {fo fn : Id} {s : St}
+    {n m c d dc di ce fv n' m' c' d' dc' di' ce' fv'}
+    (hfo : s.heap[fo]? = some (.func n m c d dc di ce fv)) (hfn : s.heap[fn]? = some (.func n' m' c' d' dc' di' ce' fv')) :
+    resolveKind cx rec vs fo fn false s = .ok (if sameModule cx m' then some .func else none, s) := by
+  unfold resolveKind sameModule
+  simp only [bind_eq, pure_eq, M.bind, getObj_eq hfo, getObj_eq hfn, getSt, defModule, hfn, hfo, sameType, Obj.kind]
+  by_cases hm : (cx.modname.isSome && m'.isSome && m' != cx.modname) = true
+  · simp [hm]; rfl
+  · simp [hm]; rfl
+
+theorem updFunc_ok {i : Id} {c d dc : Nat} {s s' : St} {a : Unit} (h : updFunc i c d dc s = .ok (a, s')) :
+    ∃ n m c0 d0 dc0 di ce fv, s.heap[i]? = some (.func n m c0 d0 dc0 di ce fv) ∧
+      s' = { s with heap := s.heap.set i (.func n m c d dc di ce fv) } := by
+  unfold updFunc at h
+  split at h
+  · rename_i n m c0 d0 dc0 di ce fv he; cases h; exact ⟨n, m, c0, d0, dc0, di, ce, fv, he, rfl⟩
+  · cases h
+
+theorem prot_func {h : List Obj} {i : Id} {n m c d dc di ce fv} (he : h[i]? = some (.func n m c d dc di ce fv))
+    (nm : NoMethRef h i) : Prot h i :=
+  ⟨_, he, by simp [Obj.kind], fun _ => nm⟩
+
+theorem updClsAttrs_ok {i : Id} {f} {s s' : St} {u : Unit} (h : updClsAttrs i f s = .ok (u, s')) :
+    ∃ n m sl b a, s.heap[i]? = some (.cls n m sl b a) ∧ s' = { s with heap := s.heap.set i (.cls n m sl b (f a)) } := by
+  unfold updClsAttrs at h
+  split at h
+  · rename_i n m sl b a he; cases h; exact ⟨n, m, sl, b, a, he, rfl⟩
+  · cases h
+
+theorem updClsBases_ok {i : Id} {bs} {s s' : St} {u : Unit} (h : updClsBases i bs s = .ok (u, s')) :
+    ∃ n m sl b a, s.heap[i]? = some (.cls n m sl b a) ∧ s' = { s with heap := s.heap.set i (.cls n m sl bs a) } := by
+  unfold updClsBases at h
+  split at h
+  · rename_i n m sl b a he; cases h; exact ⟨n, m, sl, b, a, he, rfl⟩
+  · cases h
+
+theorem setattrOf_cls {old : Id} {name : Str} {v : Id} {s s' : St} {n m sl b a}
+    (hco : s.heap[old]? = some (.cls n m sl b a)) (h : setattrOf old name v s = .ok ((), s')) :
+    s'.heap[old]? = some (.cls n m sl b (aset name v a)) := by
+  unfold setattrOf at h
+  simp only [bind_eq] at h
+  obtain ⟨o, s1, h1, h2⟩ := bind_ok.mp h
+  rw [getObj_eq hco] at h1; cases h1
+  simp only at h2
+  split at h2
+  · exact (fail_ok.mp h2).elim
+  · obtain ⟨n0, m0, sl0, b0, a0, he, rfl⟩ := updClsAttrs_ok h2
+    rw [hco] at he; cases he
+    exact getElem?_set_self' hco
+
+theorem delattrOf_cls {old : Id} {name : Str} {s s' : St} {n m sl b a}
+    (hco : s.heap[old]? = some (.cls n m sl b a)) (h : delattrOf old name s = .ok ((), s')) :
+    s'.heap[old]? = some (.cls n m sl b (adel name a)) := by
+  unfold delattrOf at h
+  simp only [bind_eq] at h
+  obtain ⟨o, s1, h1, h2⟩ := bind_ok.mp h
+  rw [getObj_eq hco] at h1; cases h1
+  simp only at h2
+  split at h2
+  · exact (fail_ok.mp h2).elim
+  · obtain ⟨n0, m0, sl0, b0, a0, he, rfl⟩ := updClsAttrs_ok h2
+    rw [hco] at he; cases he
+    exact getElem?_set_self' hco
+
+/-- a loop of attribute writes on one class folds over its attribute table -/
+theorem forEach_cls {old : Id} {n m sl b} (f : Str → M Unit) (g : Str → List (Str × Id) → List (Str × Id))
+    (hf : ∀ k s s' a, s.heap[old]? = some (.cls n m sl b a) → f k s = .ok ((), s') →
+            s'.heap[old]? = some (.cls n m sl b (g k a))) :
+    ∀ (ks : List Str) (s s' : St) (a : List (Str × Id)), s.heap[old]? = some (.cls n m sl b a) →
+      forEach f ks s = .ok ((), s') → s'.heap[old]? = some (.cls n m sl b (ks.foldl (fun e k => g k e) a)) := by
+  intro ks
+  induction ks with
+  | nil =>
+    intro s s' a ha h
+    unfold forEach at h
+    obtain ⟨_, rfl⟩ := pure_ok.mp h
+    exact ha
+  | cons k ks ih =>
+    intro s s' a ha h
+    unfold forEach at h
+    simp only [bind_eq] at h
+    obtain ⟨u, s1, h1, h2⟩ := bind_ok.mp h
+    exact ih s1 s' _ (hf k s s1 a ha h1) h2
+
+theorem mem_insertSorted (x k : Str) (l : List Str) : x ∈ insertSorted k l ↔ x = k ∨ x ∈ l := by
+  induction l with
+  | nil => simp [insertSorted]
+  | cons a r ih =>
+    unfold insertSorted
+    split
+    · simp
+    · simp [ih]; constructor
+      · rintro (h | h | h)
+        · exact Or.inr (Or.inl h)
+        · exact Or.inl h
+        · exact Or.inr (Or.inr h)
+      · rintro (h | h | h)
+        · exact Or.inr (Or.inl h)
+        · exact Or.inl h
+        · exact Or.inr (Or.inr h)
+
+theorem mem_sortStrs (x : Str) (l : List Str) : x ∈ sortStrs l ↔ x ∈ l := by
+  induction l with
+  | nil => simp [sortStrs]
+  | cons a r ih => unfold sortStrs; rw [mem_insertSorted, ih]; simp
+
+theorem forEach_inv_mem {I : St → Prop} {f : α → M Unit} :
+    ∀ (xs : List α) (_ : ∀ x, x ∈ xs → ∀ s s', I s → f x s = .ok ((), s') → I s') (s s' : St),
+      I s → forEach f xs s = .ok ((), s') → I s' := by
+  intro xs
+  induction xs with
+  | nil =>
+    intro _ s s' hi h
+    unfold forEach at h
+    obtain ⟨_, rfl⟩ := pure_ok.mp h
+    exact hi
+  | cons x xs ih =>
+    intro hf s s' hi h
+    unfold forEach at h
+    simp only [bind_eq] at h
+    obtain ⟨u, s1, h1, h2⟩ := bind_ok.mp h
+    exact ih (fun y hy => hf y (List.mem_cons_of_mem _ hy)) s1 s' (hf x (List.mem_cons_self) s s1 hi h1) h2
+
+theorem prot_cls {h : List Obj} {i : Id} {n m sl b a} (he : h[i]? = some (.cls n m sl b a)) : Prot h i :=
+  ⟨_, he, by simp [Obj.kind], by simp [Obj.kind]⟩
+
+/-- invariant of the attribute loop of `_livepatch__class`: the class keeps name, module, slots and the bases just
+    installed, and its attribute table has the key set `T` -/
+def ClsInv (old : Id) (n : Str) (m : Option Str) (sl : Option (List Str)) (bs : List Id) (T : Str → Bool) (s : St) : Prop :=
+  ∃ a, s.heap[old]? = some (.cls n m sl bs a) ∧ ∀ k, hasKey k a = T k
+
+theorem getattrOf_cls_none {old : Id} {name : Str} {s s' : St} {n m sl b a}
+    (hco : s.heap[old]? = some (.cls n m sl b a)) (h : getattrOf old name s = .ok (none, s')) : hasKey name a = false := by
+  unfold getattrOf at h
+  simp only [bind_eq, pure_eq] at h
+  obtain ⟨o, s1, h1, h2⟩ := bind_ok.mp h
+  rw [getObj_eq hco] at h1; cases h1
+  simp only at h2
+  cases hl : alookup name a with
+  | none => simp [hasKey, hl]
+  | some raw =>
+    simp only [hl] at h2
+    obtain ⟨rr, s2, h3, h4⟩ := bind_ok.mp h2
+    cases rr with
+    | cmeth f =>
+      simp only at h4
+      obtain ⟨mm, s3, h5, h6⟩ := bind_ok.mp h4
+      obtain ⟨e, _⟩ := pure_ok.mp h6
+      cases e
+    | _ =>
+      simp only at h4
+      obtain ⟨e, _⟩ := pure_ok.mp h4
+      cases e
+
+theorem lpSetattr_inv {rec : Rec} {vs : List Id} {old new : Id} {name : Str} {n m sl bs} {T : Str → Bool}
+    (hrec : RecOK rec) (hin : old ∈ vs) (hname : T name = true) (s s' : St)
+    (hi : ClsInv old n m sl bs T s) (h : lpSetattr rec vs old new name s = .ok ((), s')) : ClsInv old n m sl bs T s' := by
+  obtain ⟨a, ha, hk⟩ := hi
+  have setk : ∀ v k, hasKey k (aset name v a) = T k := by
+    intro v k
+    rw [hasKey_aset, hk k]
+    by_cases e : name = k
+    · subst e; simp [hname]
+    · simp [e]
+  unfold lpSetattr at h
+  simp only [bind_eq, pure_eq] at h
+  obtain ⟨nv, s1, h1, h2⟩ := bind_ok.mp h
+  have F1 := Pres.getattrOf (vs := vs) new name s nv s1 h1
+  have ha1 : s1.heap[old]? = some (.cls n m sl bs a) := by rw [F1.keep old hin (prot_cls ha)]; exact ha
+  cases nv with
+  | none => exact (fail_ok.mp h2).elim
+  | some newval =>
+    simp only at h2
+    obtain ⟨t, s2, h3, h4⟩ := bind_ok.mp h2
+    obtain ⟨e1, e2⟩ := getSt_ok h3
+    rw [e1] at h4; clear h3 e1 e2
+    split at h4
+    · exact (fail_ok.mp h4).elim
+    · obtain ⟨ov, s3, h5, h6⟩ := bind_ok.mp h4
+      have F2 := Pres.getattrOf (vs := vs) old name s1 ov s3 h5
+      have ha3 : s3.heap[old]? = some (.cls n m sl bs a) := by rw [F2.keep old hin (prot_cls ha1)]; exact ha1
+      cases ov with
+      | none =>
+        simp only at h6
+        exact ⟨_, setattrOf_cls ha3 h6, setk _⟩
+      | some oldval =>
+        simp only at h6
+        split at h6
+        · obtain ⟨_, rfl⟩ := pure_ok.mp h6
+          exact ⟨a, ha3, hk⟩
+        · obtain ⟨r, s4, h7, h8⟩ := bind_ok.mp h6
+          have F3 := hrec vs oldval newval s3 r s4 h7
+          have ha4 : s4.heap[old]? = some (.cls n m sl bs a) := by rw [F3.keep old hin (prot_cls ha3)]; exact ha3
+          split at h8
+          · obtain ⟨_, rfl⟩ := pure_ok.mp h8
+            exact ⟨a, ha4, hk⟩
+          · exact ⟨_, setattrOf_cls ha4 h8, setk _⟩
+
+/-- `__dict__` / `__weakref__` -/
+def special (k : Str) : Bool := k == dictKey || k == weakrefKey
+
+/-- the attribute names a livepatched class ends up with: those of the new class — except that with repair D44 the
+    two layout descriptors stay as they were -/
+def clsTarget (fx : Fixes) (a a' : List (Str × Id)) (k : Str) : Bool :=
+  if fx.d44 && special k then hasKey k a else hasKey k a'
+
+def layoutFilter (l : List (Str × Id)) : List (Str × Id) := l.filter (fun p => p.1 != dictKey && p.1 != weakrefKey)
+
+theorem hasKey_layoutFilter (k : Str) (l : List (Str × Id)) : hasKey k (layoutFilter l) = (!special k && hasKey k l) := by
+  induction l with
+  | nil => simp [layoutFilter, hasKey, alookup]
+  | cons p r ih =>
+    obtain ⟨x, v⟩ := p
+    unfold layoutFilter at ih ⊢
+    unfold hasKey at ih ⊢
+    by_cases hx : (x != dictKey && x != weakrefKey) = true
+    · simp only [List.filter, hx]
+      by_cases e : x = k
+      · subst e
+        have : special x = false := by
+          unfold special; simp only [bne_iff_ne, ne_eq, Bool.and_eq_true, decide_eq_true_eq] at hx
+          simp [hx.1, hx.2]
+        simp [alookup, this]
+      · simp only [alookup, e, if_false]; exact ih
+    · have hx' : (x != dictKey && x != weakrefKey) = false := by simpa using hx
+      simp only [List.filter, hx']
+      by_cases e : x = k
+      · subst e
+        have : special x = true := by
+          unfold special
+          cases h1 : (x == dictKey) <;> cases h2 : (x == weakrefKey) <;> simp_all [bne]
+        simp [alookup, this, ih]
+      · simp only [alookup, e, if_false]; exact ih
+
+theorem cls_keys_sync (fx : Fixes) (a a' : List (Str × Id)) (k : Str) :
+    hasKey k
+      (((akeys (if fx.d44 then layoutFilter a' else a')).filter
+          (fun k => !hasKey k (if fx.d44 then layoutFilter a else a))).foldl
+        (fun e k => aset k ((alookup k (if fx.d44 then layoutFilter a' else a')).getD 0) e)
+        (((akeys (if fx.d44 then layoutFilter a else a)).filter
+            (fun k => !hasKey k (if fx.d44 then layoutFilter a' else a'))).foldl (fun e k => adel k e) a))
+      = clsTarget fx a a' k := by
+  rw [hasKey_foldl_aset, hasKey_foldl_adel]
+  unfold clsTarget
+  cases hd : fx.d44
+  · simp only [Bool.false_eq_true, if_false, Bool.false_and]
+    by_cases x : hasKey k a = true <;> by_cases y : hasKey k a' = true <;>
+      simp [List.mem_filter, mem_akeys, x, y]
+  · simp only [if_true, Bool.true_and]
+    by_cases z : special k = true <;> by_cases x : hasKey k a = true <;> by_cases y : hasKey k a' = true <;>
+      simp [List.mem_filter, mem_akeys, hasKey_layoutFilter, x, y, z]
+
+theorem resolveKind_cls {cx : Ctx} {rec : Rec} {vs : List Id} {co cn : Id} {s : St}
+    {n m sl b a n' m' sl' b' a'}
+    (hco : s.heap[co]? = some (.cls n m sl b a)) (hcn : s.heap[cn]? = some (.cls n' m' sl' b' a')) :
+    resolveKind cx rec vs co cn false s = .ok (if sameModule cx m' then some .cls else none, s) := by
+  unfold resolveKind sameModule
+  simp only [bind_eq, pure_eq, M.bind, getObj_eq hco, getObj_eq hcn, getSt, defModule, hcn, hco, sameType, Obj.kind]
+  by_cases hm : (cx.modname.isSome && m'.isSome && m' != cx.modname) = true
+  · simp [hm]; rfl
+  · simp [hm]; rfl
+
+theorem docKey_not_special : special docKey = false := by decide
 
 end Pfb.C16
